@@ -1,12 +1,12 @@
 CONSTANT Rep = {"a", "b", "c"}
-CONSTANT MaxSteps = 8
-CONSTANT Resolutions = {"RemoteWins", "LocalWins", "Merge"}
-CONSTANT EditCap = 99
-CONSTANT Editors = {"a", "b", "c"}
-CONSTANT Directed = FALSE
+CONSTANT MaxSteps = 9
+CONSTANT Resolutions = {"Merge"}
+CONSTANT EditCap = 2
+CONSTANT Editors = {"a", "b"}
+CONSTANT Directed = TRUE
 CONSTANT RepOrder <- Order3
 SPECIFICATION Spec
-VIEW view
+INVARIANT DirectedExport
 INVARIANT TypeOK
 INVARIANT NoDupSource
 INVARIANT ConflictSound
